@@ -12,6 +12,8 @@ import FgaVerif.Model.PGraph
 import FgaVerif.Model.WGraph
 import FgaVerif.Spec.Weights
 import FgaVerif.Gen.Atn
+import FgaVerif.Model.Conform
+import FgaVerif.Gen.Grammar
 /-! Line-protocol driver: one S-expression operation per input line, one canonical result per
     output line. Runs the executable model definitions only (no proofs are imported). -/
 namespace FgaVerif.Driver
@@ -48,6 +50,15 @@ def opModel2Dsl (m : Sexp) (src : Bool) : String :=
 def opScoped (tree : Sexp) : String :=
   match Codec.decTree tree with
   | some t => if Listener.wellScoped {} t then "(scoped true)" else "(scoped false)"
+  | none => "bad-op"
+
+/-- does the real parse tree conform to the parser grammar (regenerated from OpenFGAParser.g4)? -/
+def opConform (tree : Sexp) : String :=
+  match Codec.decTree tree with
+  | some t =>
+    match Conform.firstBad Gen.Grammar.rules t with
+    | none => "(conform true)"
+    | some n => s!"(conform false {Sexp.quote n})"
   | none => "bad-op"
 
 def opDsl2Model (text cleaned : String) (tree errs : Sexp) : String :=
@@ -237,6 +248,7 @@ def step (line : String) : String :=
   | some (.list [.atom "model2dsl", m, .atom "false"]) => opModel2Dsl m false
   | some (.list [.atom "dsl2model", .str text, .str cleaned, tree, errs]) => opDsl2Model text cleaned tree errs
   | some (.list [.atom "scoped", tree]) => opScoped tree
+  | some (.list [.atom "conform", tree]) => opConform tree
   | some (.list [.atom "merge", .str schema, .list files]) => opMerge schema files
   | some (.list [.atom "merge-wf", .list files]) => opMergeWF files
   | some (.list [.atom "pgraph", m]) => opPGraph m 0
